@@ -71,11 +71,22 @@ def goAgeNs (nowNs : Int) (v : Int) : Int :=
 /-- The age the property speaks about: true difference between now and the recorded second. -/
 def trueAgeNs (nowNs : Int) (v : Int) : Int := nowNs - v * 1000000000
 
-/-- `GetToBeRemovedTime`: `none` if there is no taint or its value does not parse. -/
+/-- 0001-01-01T00:00:00Z and 9999-12-31T23:59:59Z in Unix seconds: the range `GetToBeRemovedTime` accepts
+    (outside it `time.Unix` may wrap; repaired in /repo by the `fix:` commit for finding T1). -/
+def minTaintUnix : Int := -62135596800
+def maxTaintUnix : Int := 253402300799
+
+/-- The value part of `GetToBeRemovedTime`: parses as an int64 and lies in the accepted range. -/
+def parseTaintTime (s : String) : Option Int :=
+  match parseInt64 s with
+  | none => none
+  | some v => if v < minTaintUnix ∨ v > maxTaintUnix then none else some v
+
+/-- `GetToBeRemovedTime`: `none` if there is no taint, its value does not parse, or it is out of range. -/
 def taintStamp? (n : Node) : Option Int :=
   match escTaint? n with
   | none => none
-  | some t => parseInt64 t.value
+  | some t => parseTaintTime t.value
 
 def effectOrDefault (e : String) : String := if e.length > 0 then e else "NoSchedule"
 
